@@ -240,7 +240,12 @@ class Scheduler:
     working_dir: Path = attrs.field(converter=Path)
     max_cores: int = attrs.field(default=multiprocessing.cpu_count())
 
-    tid_generator: Generator = attrs.field(factory=itertools.count)
+    # Task ids must not be reused by a later pool: clients keep the ids of the
+    # tasks they submitted (gwf tracks them on disk), so after a restart of the
+    # workers an old id has to be unknown instead of naming another task.
+    tid_generator: Generator = attrs.field(
+        factory=lambda: itertools.count(time.time_ns() // 1000)
+    )
     events: asyncio.Queue = attrs.field(factory=asyncio.Queue)
     task_states: dict = attrs.field(factory=dict)
     tasks: dict = attrs.field(factory=dict)
